@@ -18,7 +18,7 @@ META = {
                   'A weakened memory order cannot be made to misbehave on this x86 host; it is reported through the broken static obligation and, when a traced execution shows it, as a concrete hb race.',
     'design_ref': '§6 C07, §11',
 }
-REQUIRED = ['Librfn.C07.skeleton_matches_fibre', 'Librfn.C07.all_units_seqcst', 'Librfn.C07.shared_fields_atomic', 'Librfn.C07.receivep_single_owner',
+REQUIRED = ['Librfn.C07.races_sound', 'Librfn.C07.races_complete', 'Librfn.C07.raceFree_iff', 'Librfn.C07.skeleton_matches_fibre', 'Librfn.C07.all_units_seqcst', 'Librfn.C07.shared_fields_atomic', 'Librfn.C07.receivep_single_owner',
             'Librfn.C07.isr_entry_touches_only_the_queue', 'Librfn.C07.fibre_payload_inside_publish', 'Librfn.C07.ring_sc_race_free',
             'Librfn.C07.ring_sc_race_free_all', 'Librfn.C07.mq_sc_race_free']
 HB_MODULE = 'Librfn.Props.C07HB'
